@@ -34,12 +34,37 @@ def _chk(ctx, S, ok, text, node, detail=None, arrays=(), nontrivial=True, known=
                 ctx.error(text, node, {"reason": "a test the rule cannot decide guards a store into this array",
                                        "tests": [ast.unparse(t.test)[:80] for t in S.ev.w.undecided][:4]})
                 return False
-        for v, allowed in (known or []):
+        for v, vocab in (known or []):
             for ix, _val, _st in S.cells(v):
-                if not is_rat(ix) or not any(eq(ix, a) for a in allowed if is_rat(a)):
+                if not _recognised(ix, vocab):
                     ctx.error(text, node, {"reason": "a store into this array uses an index the rule does not recognise", "index": _r(ix, 200)})
                     return False
     return ctx.check(ok, text, node, detail, nontrivial=nontrivial)
+
+
+def _recognised(ix, vocab):
+    """is the index built only from selectors the rule knows (`vocab`: index vectors / masks) and full slices, in whatever arrangement: then a
+    mismatch is a wrong index (violation); anything else is an index the rule cannot judge (analysis error)"""
+    if not is_rat(ix):
+        return False
+    sc = split_call(ix)
+    if sc is not None and sc[0] == "np.ix_":
+        parts = list(sc[1])
+    else:
+        parts = untuple(ix) or [ix]
+    for p_ in parts:
+        if not is_rat(p_):
+            return False
+        u = unfn(p_)
+        if u is not None and u[0] == "slice" and all(eq(x, cs.NONE) for x in u[1]):
+            continue
+        if any(is_rat(a) and eq(p_, a) for a in vocab):
+            continue
+        t = untuple(p_)
+        if t is not None and _recognised(p_, vocab):
+            continue
+        return False
+    return True
 
 
 def _ixv(S, text, **bind):
@@ -228,12 +253,12 @@ def r1_cbtf(ctx):
     ok = eq(S.cell(A, "bset"), S.root("a")) and len(S.cells(A)) == 2
     _chk(ctx, S, ok, "cbtf: the returned boundary acceleration is the enforced one at every frequency (including 0 Hz, where it cannot be derived from the "
                      "displacement) and the interior acceleration is the solver's", ret.node or fn, [(_r(i, 80), _r(v, 120)) for i, v, _ in S.cells(A)], arrays=[A],
-         known=[(A, [_ixv(S, "bset"), qv])])
+         known=[(A, [S.root("bset"), qv, S.root(NZ)])])
     bd = S.buf(D)
     ok = eq(S.cell(D, Q), F.fn("attr:d", sol)) and eq(S.cell(D, f"np.ix_(bset, {NZ})"), S.root(f"-a[:, {NZ}] / {OM}[{NZ}] ** 2")) \
         and len(S.cells(D)) == 2 and bd is not None and is_rat(bd.init) and bd.init.is_zero()
     _chk(ctx, S, ok, "cbtf: boundary displacement = -a/W^2 at non-zero frequencies only (zero at 0 Hz), interior displacement from the solver", ret.node or fn,
-         [(_r(i, 80), _r(v, 120)) for i, v, _ in S.cells(D)], arrays=[D], known=[(D, [_ixv(S, f"np.ix_(bset, {NZ})"), qv])])
+         [(_r(i, 80), _r(v, 120)) for i, v, _ in S.cells(D)], arrays=[D], known=[(D, [S.root("bset"), qv, S.root(NZ)])])
     ok = eq(fr, S.root("freq"))
     ctx.check(ok, "cbtf: the interior system is solved at the requested frequencies", fs and ret.node or fn, _r(fr), nontrivial=False)
     # ---- q-set equation of motion:  Mqq q'' + Bqq q' + Kqq q = -(Mqb a + Bqb v_b),  v_b = a/(i W) at non-zero frequencies, 0 at 0 Hz
@@ -250,7 +275,7 @@ def r1_cbtf(ctx):
         cl = S.cells(vb.sym)
         ok = len(cl) == 1 and eq(S.cell(vb.sym, f":, {NZ}"), S.root(f"1j * a[:, {NZ}] / {OM}[{NZ}]")) and is_rat(vb.init) and vb.init.is_zero()
         _chk(ctx, S, ok, "cbtf: the boundary term v is i a / W (minus the boundary velocity a/(i W)) at non-zero frequencies and zero at 0 Hz", vb.node,
-             [(_r(i, 80), _r(v, 120)) for i, v, _ in cl], arrays=[vb.sym], known=[(vb.sym, [_ixv(S, f":, {NZ}")])])
+             [(_r(i, 80), _r(v, 120)) for i, v, _ in cl], arrays=[vb.sym], known=[(vb.sym, [S.root("bset"), qv, S.root(NZ)])])
     # ---- boundary force: rows bset of M a + B v + K d (K_bq = 0 for a Craig-Bampton stiffness)
     ok = S.same(V, f"1j * ({OM} * __d)", __d=D)
     ctx.check(ok, "cbtf: velocity = i W displacement on every row", ret.node or fn, None if ok else _r(V))
@@ -489,12 +514,15 @@ def r2_conversion(ctx):
     good, known = True, True
     for ix, val, node in cl:
         t = untuple(ix) if is_rat(ix) else None
-        k = rows_of(t[0]) if t is not None and len(t) == 2 and eq(t[1], cols) else None
+        k = rows_of(t[0]) if t is not None and len(t) == 2 else None
+        if k is None and t is not None and len(t) == 2 and rows_of(t[1]) is not None:
+            good = False             # the row mask in the column position
+            continue
         if k is None:
             known = False
             continue
         dofs.extend(sorted(k))
-        good = good and eq(val, F.fn("idx", iloc, ix) * LC)
+        good = good and eq(t[1], cols) and eq(val, F.fn("idx", iloc, ix) * LC)
     if not known or not cl:
         ctx.error("uset_convert: a store into the USET table was not recognised (rows selected by `dof`, columns 1:)", fn, [(_r(i, 120), _r(v, 120)) for i, v, _ in cl])
     else:
